@@ -121,19 +121,20 @@ func (r *Ring[T]) At(n int) *Ring[T] {
 		return nil
 	}
 
-	next := (*Ring[T]).Next
+	// Count n toward zero in steps of ±1 rather than negating it: -n overflows
+	// for the most negative int, which made At report r itself for that offset.
+	next, step := (*Ring[T]).Next, 1
 	if n < 0 {
-		n = -n
-		next = (*Ring[T]).Prev
+		next, step = (*Ring[T]).Prev, -1
 	}
 
 	cur := r
-	for n > 0 {
+	for n != 0 {
 		cur = next(cur)
 		if cur == r {
 			return nil
 		}
-		n--
+		n -= step
 	}
 	return cur
 }
